@@ -55,6 +55,13 @@ class P(Y.P):
     def unary(self):
         if self.accept('op', '&'):
             return ('addr', self.unary())
+        if self.peek() == ('id', 'sizeof') and self.peek(1) == ('op', '(') and self.peek(2) == ('op', '*') and \
+                self.peek(3)[0] == 'id' and self.peek(4) == ('op', ')'):
+            # sizeof(*p) with p a char pointer
+            if self.peek(3)[1] not in ('source', 'dest'):
+                raise TranslateError('sizeof(*%s)' % self.peek(3)[1])
+            self.i += 5
+            return ('num', 1)
         return super().unary()
 
     def stmt(self):
@@ -96,6 +103,13 @@ class Tr(Y.Tr):
             return [], '(.lit 0)', []
         if k == 'not' and e[1] == ('id', BASE):
             return [], '(.eq (.var %d) (.lit 0))' % VARS.index(BASE), []
+        if k == 'bin' and e[1] in ('==', '!=') and ('id', BASE) in (e[2], e[3]):
+            # the pointer compared with NULL: the flag, not the offset
+            other = e[3] if e[2] == ('id', BASE) else e[2]
+            if other not in (('id', 'NULL'), ('num', 0)):
+                raise TranslateError('the character buffer pointer compared with something else than NULL')
+            t = '(.eq (.var %d) (.lit 0))' % VARS.index(BASE)
+            return [], (t if e[1] == '==' else '(.not %s)' % t), []
         if k == 'addr':
             x = e[1]
             if x[0] == 'index' and x[1] == ('id', BASE):
@@ -139,8 +153,24 @@ class Tr(Y.Tr):
         return super().assign(e)
 
     def st(self, s):
+        if s[0] == 'expr' and s[1][0] == 'assign' and s[1][3][0] == 'call' and s[1][3][1] == 'yyread':
+            # result = yyread(&buf[d], max): the c99 skeleton's spelling of YY_INPUT
+            lv, args = s[1][1], s[1][3][2]
+            if lv[0] != 'id' or s[1][2] != '=' or len(args) != 2:
+                raise TranslateError('yyread with unexpected arguments')
+            p1, d, q1 = self.ex(args[0]); p2, m, q2 = self.ex(args[1])
+            if p1 or q1 or p2 or q2:
+                raise TranslateError('side effect in an argument of yyread')
+            return '(.read %s %s %d)' % (d, m, self.var(lv[1]))
         if s[0] == 'expr' and s[1][0] == 'call':
             name, args = s[1][1], s[1][2]
+            if name == 'memmove':
+                if len(args) != 3:
+                    raise TranslateError('memmove with unexpected arguments')
+                ps = [self.ex(a) for a in args]
+                if any(p or q for p, _, q in ps):
+                    raise TranslateError('side effect in an argument of memmove')
+                return '(.move %s %s %s)' % (ps[0][1], ps[1][1], ps[2][1])
             if name == 'YY_INPUT':
                 if len(args) != 3 or args[1][0] != 'id':
                     raise TranslateError('YY_INPUT with unexpected arguments')
@@ -213,6 +243,32 @@ def generate(flex, workdir):
         except OSError:
             pass
     return lean_file('NextBuf', prog, msgs, consts, "a scanner flex (built from /repo's current tree) has just generated"), \
+        {'messages': msgs, 'consts': consts}
+
+
+PROBE_C99 = '%option emit="c99" noyywrap\n%%\na yymore();\nb ;\n%%\n'
+
+
+def generate_c99(flex, workdir):
+    lf = os.path.join(workdir, 'nextbuf_probe99.l')
+    cf = os.path.join(workdir, 'nextbuf_probe99.c')
+    open(lf, 'w').write(PROBE_C99)
+    p = subprocess.run([flex, '-L', '-o', cf, lf], stdout=subprocess.PIPE, stderr=subprocess.PIPE, text=True)
+    if p.returncode != 0:
+        raise TranslateError('flex failed on the c99 probe: ' + p.stderr[-200:])
+    text = G.normalise_c99(open(cf, errors='replace').read())
+    # the current buffer is written out where the default skeleton has a macro; other names of the same things
+    text = re.sub(r'\byy_buffer_stack\s*\[\s*yy_buffer_stack_top\s*\]', B, text)
+    text = re.sub(r'\byytext_r\b', 'yytext_ptr', text)
+    text = re.sub(r'\byy_more_len\b', 'YY_MORE_ADJ', text)
+    text = re.sub(r'\byyin_r\b', 'yyin', text)
+    prog, msgs, consts = translate(text)
+    for f in (lf, cf):
+        try:
+            os.unlink(f)
+        except OSError:
+            pass
+    return lean_file('NextBufC99', prog, msgs, consts, 'a c99 scanner (%option emit="c99") flex has just generated'), \
         {'messages': msgs, 'consts': consts}
 
 
